@@ -856,6 +856,32 @@ def corpus(ctx, corr):
 
 # ------------------------------------------------------------------------------------------------------ plugin API
 
+UNEVAL_COND = ['int a[1 || (1/0 ? 1 : 2)];\n', 'int a[(0 && (1/0 ? 1 : 2)) + 3];\n', 'int a[1 ? 2 : (0 && (1/0 ? 1 : 2))];\n']
+
+
+def unevaluated_cond(ctx, corr):
+    """is_const_expr must not evaluate the condition of a ?: that sits in an unevaluated operand of && / || (6.6p3 fn 115).
+    Region of the known finding C07-constness-unevaluated-cond (Findings/C07.lean C07_finding_unevaluated_cond)."""
+    for i, src in enumerate(UNEVAL_COND):
+        path = os.path.join(ctx.scratch, f'uneval_{i}.c')
+        open(path, 'w').write(src)
+        rc, o, e = sh([ctx.cc, '-cc1', '-cc1-input', path, '-cc1-output', '/dev/null', path], timeout=20)
+        rcg, og, eg = sh(['gcc', '-w', '-fsyntax-only', path], timeout=20)
+        corr.evaluations += 1
+        corr.count('unevaluated-cond')
+        corr.nontrivial.add('uneval:' + src)
+        if rcg != 0:
+            raise RuntimeError('gcc rejects the unevaluated-condition probe: ' + eg[-200:])
+        if rc != 0:
+            corr.violations.append({'what': 'a valid integer constant expression is rejected as an array bound: is_const_expr evaluates a ?: condition '
+                                            'inside an unevaluated && / || operand', 'input': src, 'expected': 'accepted (gcc accepts)',
+                                    'got': f'rc={rc} {e[-200:]}', 'known_id': 'C07-constness-unevaluated-cond'})
+            if 'C07-constness-unevaluated-cond' not in corr.known_hits:
+                corr.known_hits.append('C07-constness-unevaluated-cond')
+            return
+    corr.extra['unevaluated_cond'] = 'accepted (finding no longer reproduces: update Findings/C07.lean)'
+
+
 def correspond(ctx, corr):
     corr.rule = ('type-directed random integer constant expressions (all operators, literal bases/suffixes, character/enumeration/'
                  'sizeof constants, casts to every integer type and _Bool, depth <= 6, boundary values; expressions without a C11 value '
@@ -870,6 +896,7 @@ def correspond(ctx, corr):
         return
     if not malformed(ctx, corr):
         return
+    unevaluated_cond(ctx, corr)
     rng = ctx.rng
     batt = boundary_battery()
     if not ctx.thorough:
@@ -967,17 +994,22 @@ def replay(ctx, corr, path):
 
 MANIFEST = {
     'level_text': 'Lean 4 theorems over the translated folder (Gen.eval2 = parse.c eval2/eval3/eval_truth with clang\'s host types, '
-                  'regenerated every run): C07_fold (every integer constant expression with a C11 value, all operators/casts/depths/'
-                  'operand values, folds to exactly that value, wrapped to the node type), C07_undefined_diag (division and remainder by zero '
-                  'give the diagnostic; no operand ever reaches a host trap; MIN / -1 does not trap), C07_constness (is_const_expr accepts '
-                  'every 6.6p6 operator tree incl. %, and accepted trees never yield "not a compile-time constant"), C07_consumers '
-                  '(enumerator, case label, array bound, bit-field width, _Alignas, designator, static initializer store the C11 conversion). '
+                  'regenerated every run): C07_fold (every integer constant expression with a C11 value - all operators, casts to every '
+                  'integer type and _Bool, all depths, all operand values - folds to exactly that value, in range of its C11 type; '
+                  'structural induction, one BitVec lemma per operator arm), C07_undefined_diag (a zero divisor gives the diagnostic), '
+                  'C07_no_trap (on every tree, defined or not, folding ends in a value, a diagnostic or the host\'s undefined shift count: '
+                  'never SIGFPE/NULL), C07_division_total (MIN / -1 and x % -1 fold to the wrapped quotient / C remainder), '
+                  'C07_constness_partial (is_const_expr accepts every 6.6p6 operator tree incl. % whose ?: conditions have values) and '
+                  'C07_constness_sound (accepted trees never yield "not a compile-time constant"), C07_consumers (enumerator, array bound, '
+                  'bit-field width, _Alignas, designator, case label, static initializer incl. _Bool store the C11 conversion). '
                   'Tied by the translator and by a differential run: generated expressions in every constant context and as run-time code, '
                   'chibicc = model = Spec = gcc.',
-    'level_note': 'Theorems are about the model in wrapping-host mode (signed overflow in the host wraps); floating constant folding is '
-                  'not modelled in Lean (differential only); address constants are outside the model; elabE (parser+add_type typing) is a hand '
-                  'model tied only differentially.',
-    'technique': 'Lean 4 structural induction over expression trees with one BitVec lemma per operator arm; clang-AST translator; '
+    'level_note': 'Values are proved for the wrapping host (signed overflow of the host int64_t arithmetic wraps, as in the shipped binary); '
+                  'Findings/C07.lean shows the strict-host reading reaches host-undefined overflow on defined unsigned long expressions. '
+                  'C07_constness_Statement (every expression with a value is accepted) is open: known finding '
+                  'C07-constness-unevaluated-cond. Floating constant folding is not modelled in Lean (differential only); address constants '
+                  'are outside the model; elabE (parser + add_type typing) is a hand model tied only differentially.',
+    'technique': 'Lean 4 structural induction over expression trees with one BitVec/Int lemma per operator arm; clang-AST translator; '
                  'compile-and-run differential against gcc',
     'design_ref': 'DESIGN.md section 6, C07',
 }
